@@ -113,7 +113,7 @@ def c17(run):
 
 
 def c20(run):
-    run.scen("MC_Limits", {})                                            # VOL / CLM size vectors (sparse files), size-prefixed containers
+    run.scen("MC_Limits", {}, own=lambda m: not site_of(m).startswith("prefixed_read"))       # VOL / CLM size vectors (sparse files), size-prefixed container writes
     run.scen("MC_LimitsPrt", {"MaxLayers": 130})                         # every layer-list length 0..130 against every 7-bit count
     run.scen("MC_Clm", {"MaxFiles": 1}, own=by_prefix("clm_create", "scenario"), name="MC_Clm (names of 8 and 9 characters)")
 
@@ -294,6 +294,7 @@ def _streams(run):
 
 def c12(run):
     _streams(run)
+    run.scen("MC_Limits", {}, own=by_prefix("prefixed_read", "scenario"), name="MC_Limits (size-prefixed reads on long streams)")
 
 
 def c13(run):
